@@ -127,6 +127,10 @@ Definition p_out : parser out :=
   | 4 => let* r := pN in let* p := pN in let* l := pN in let* t := pN in pret (OReq r p l t)
   | 5 => let* c := pN in let* l := pN in let* t := pN in pret (OWire c l t)
   | 7 => let* r := pN in let* ok := pBool in pret (OFeed r ok)
+  (* harness marker "the single-stepped copy (1) / the small-channel run (2) of the event loop saw
+     something else than the real run at this stimulus": accepted and ignored by the oracle (the
+     events printed are the real loop's); the model never prints it, so the case disagrees *)
+  | 99 => let* w := pN in pret (OBind w 0)
   | _ => pfail
   end.
 
